@@ -59,9 +59,17 @@ fn exercise(tr: &mut Tracer, p: &Value, iface: &mut Box<dyn GenericSecurityServi
             }
             for t in variants {
                 if let Some(mut f) = rebuild() {
+                    // advance the rebuilt interface by the valid messages received so far; if a message sealed by the
+                    // conforming peer does not unseal there, that is an observation (validated by TLC), not a harness error
                     let mut ok_replay = true;
-                    for vt in &valid_tokens { if f.gss_unwrapex(vt).is_err() { ok_replay = false; } }
-                    if !ok_replay { tr.event(json!({"ev": "harness_error", "what": "replay of valid messages failed on the rebuilt interface"})); continue; }
+                    for (j, vt) in valid_tokens.iter().enumerate() {
+                        if f.gss_unwrapex(vt).is_err() {
+                            ok_replay = false;
+                            tr.event(json!({"ev": "unwrap", "token": vt, "res": "err", "ek": "replay", "plain": [], "prior": j, "fresh": true}));
+                            break;
+                        }
+                    }
+                    if !ok_replay { break; }
                     let out = guarded(|| f.gss_unwrapex(&t));
                     let (res, ek) = res_of(&out);
                     let plain = if let Outcome::Done(Ok(x)) = &out { x.clone() } else { vec![] };
@@ -113,7 +121,7 @@ fn run_plan(p: &Value, tr: &mut Tracer) {
     if p.get("steps").is_none() { return; }
     // the session key as the SERVER derives it from the token (independent of the client's memory)
     let acc = np::Account { domain: domain.clone(), user: user.clone(), password: password.clone() };
-    let exported = match np::parse_authenticate(&auth).and_then(|a| np::exported_key(&acc, &a)) { Some(k) => k, None => { tr.event(json!({"ev": "harness_error", "what": "server cannot derive the session key"})); return; } };
+    let exported = match np::parse_authenticate(&auth).and_then(|a| np::exported_key(&acc, &a)) { Some(k) => k, None => { tr.event(json!({"ev": "wrap", "m": [], "res": "no-session-key", "ek": "the reference server cannot derive the session key from the token", "token": []})); return; } };
     let mut iface = ntlm.build_security_interface();
     // a rebuilt interface with the same keys: the driver replays the handshake is impossible (fresh nonces), so the
     // equivalent object is built from the derived key
